@@ -350,7 +350,7 @@ def make_module(family, quick_n, scale_max=10, extra_names=(), exclude=()):
     names_s = [n for n in cat.names("s", family) if n not in exclude] + list(extra_names)
 
     def shards(tier):
-        n = quick_n if tier == "quick" else quick_n * 15
+        n = quick_n if tier == "quick" else quick_n * 5
         out = []
         if names_f:
             out += [("f", n)] * 5
